@@ -5,7 +5,6 @@ import (
 	"bytes"
 	"context"
 	"fmt"
-	"io"
 	"math/rand"
 	"net"
 	"os"
@@ -75,6 +74,9 @@ func gen(g *mon.Gen) {
 				g.Emit(&Case{Client: client, Mode: mode, G: gs, M: m, Seed: rng.Int63(), Delay: i % 3, Block: rep%2 == 0})
 				i++
 			}
+			if client == clientx.Serial && (rep < 2 || g.Thorough() && rep%10 == 0) {
+				g.Emit(&Case{Client: client, Mode: "plain", G: 4, M: 2, Seed: rng.Int63(), Delay: 4, Block: rep%2 == 0})
+			}
 			if client != clientx.Serial && (rep < 2 || g.Thorough() && rep%10 == 0) {
 				g.Emit(&Case{Client: client, Mode: "plain", G: 8, M: 2, Seed: rng.Int63(), Delay: 3})
 				g.Emit(&Case{Client: client, Mode: "reconnect", G: 4, M: 3, Seed: rng.Int63(), Delay: rep % 2})
@@ -140,7 +142,7 @@ func (d *devConn) Write(p []byte) (int, error) {
 	d.mu.Lock()
 	defer d.mu.Unlock()
 	if d.closed {
-		return 0, io.ErrClosedPipe
+		return 0, errConnClosed
 	}
 	if !d.wdl.IsZero() && time.Now().After(d.wdl) {
 		return 0, os.ErrDeadlineExceeded
@@ -178,6 +180,11 @@ func (d *devConn) Write(p []byte) (int, error) {
 	if d.delay == 3 {
 		d.readyTime = time.Now().Add(40 * time.Millisecond)
 	}
+	if d.delay == 4 && d.writes == 1 {
+		// the first answer of this (serial) device takes 250 ms: slower than half the client's read timeout (400 ms in
+		// these cases), faster than the whole of it - a slow answer is an answer, the request goes on the line once
+		d.readyTime = time.Now().Add(250 * time.Millisecond)
+	}
 	if ow != nil && ow.noReply {
 		d.readyAt = 1 << 30
 	}
@@ -189,7 +196,7 @@ func (d *devConn) Read(p []byte) (int, error) {
 	d.mu.Lock()
 	defer d.mu.Unlock()
 	if d.closed {
-		return 0, io.ErrClosedPipe
+		return 0, errConnClosed
 	}
 	if len(d.pending) > 0 && time.Now().Before(d.readyTime) {
 		d.mu.Unlock()
@@ -213,7 +220,7 @@ func (d *devConn) Read(p []byte) (int, error) {
 			time.Sleep(3 * time.Millisecond)
 			d.mu.Lock()
 			if d.closed {
-				return 0, io.ErrClosedPipe
+				return 0, errConnClosed
 			}
 			if len(d.pending) > 0 && d.readyAt == 0 {
 				n := copy(p, d.pending)
@@ -256,6 +263,9 @@ func (h *groupHooks) BeforeParse([]byte) {
 	time.Sleep(150 * time.Microsecond) // a hook that logs takes a moment; its record is complete when it returns
 	h.add('P')
 }
+
+// errConnClosed is what a closed socket reports: net.ErrClosed inside an *net.OpError.
+var errConnClosed error = &net.OpError{Op: "read", Net: "verif", Err: net.ErrClosed}
 
 // brokenRequest is an application-defined request whose encoding panics.
 type brokenRequest struct{}
@@ -373,7 +383,11 @@ func run(ci any, r *mon.Rec) {
 		_ = connect()
 		cl = nc
 	default:
-		sopts := []modbus.SerialClientOptionFunc{modbus.WithSerialReadTimeout(2 * time.Second)}
+		srt := 2 * time.Second
+		if c.Delay == 4 {
+			srt = 400 * time.Millisecond
+		}
+		sopts := []modbus.SerialClientOptionFunc{modbus.WithSerialReadTimeout(srt)}
 		if gh != nil {
 			sopts = append(sopts, modbus.WithSerialHooks(gh))
 		}
